@@ -26,7 +26,11 @@ RULE = ("metamorphic cases = (namespace, task invocation built by construction, 
         "each block must mean what it means in its own context (= the flag-by-flag spelling with the core part moved to the "
         "front). Family DASHVAL: values '--', '-', '---', '--x', '-x=y' ... for task value flags, optional-value flags and core "
         "value flags in the '=', glued and spaced spellings, before/inside the tasks, with and without a real remainder: value "
-        "verbatim, later tokens intact, remainder = what follows the first bare '--' token of the original argv")
+        "verbatim, later tokens intact, remainder = what follows the first bare '--' token of the original argv. Family BLOCK: "
+        "combined short blocks of 3, 4 and 5 letters (core Booleans, task Booleans, mixed) with one value / optional-value flag "
+        "in first, middle or last position, its value as the next token, glued at the end, or absent; before the first task, "
+        "at every item boundary inside a task, with a second task and a remainder: the block means the same as its flag-by-flag "
+        "spelling in the same place (incl. refusing both), and an all-core block the same as before the tasks")
 TRUSTED = ["Lean 4.33 kernel", "axioms propext/Classical.choice/Quot.sound only",
            "harness/props/c18.py metamorphic generator + oracle + canonicalisation", "tools/extractors/parser.py (core argument table)",
            "models Invoke/Model/Parser.lean + Program.lean hand-written, tied by correspondence on every run",
@@ -544,6 +548,128 @@ def cross_cases(nv, rng, n):
     return out
 
 
+# ------------------------------------------------------------------ family: combined short blocks of 3-5 letters
+
+BLOCK_NS = {"id": "X3", "tasks": [
+    {"name": "build", "params": [["verbose", False], ["quiet", False], ["name", "n"], ["opt", None], ["keep", False]], "optional": ["opt"]},
+    {"name": "ship", "params": [["pos"], ["x", False], ["yes", False], ["zone", "z"]]}]}
+
+
+def block_flagwise(nv, task, block):
+    """the flag-by-flag spelling of a multi-character short token read in its context (`task` = None: core context): if its
+    two-character prefix is a value-taking flag there, the rest is that flag's value; otherwise every further character
+    is a flag of its own, in the order written"""
+    first = block[:2]
+    a = None
+    if task is not None:
+        a = task["flags"].get(first)
+    if a is None:
+        a = nv.view.initial["flags"].get(first)
+    if a is not None and c07.View.takes_value(a):
+        return [first, block[2:]]
+    return ["-" + ch for ch in block[1:]]
+
+
+def block_cases(nv, rng, n):
+    core = nv.view.initial
+    def shorts(ctx, pred):
+        return sorted(set(f[1] for f, a in ctx["flags"].items() if len(f) == 2 and pred(a) and a["names"][0] not in UNSAFE_CORE
+                          and not a["incrementable"]))
+    cb = shorts(core, lambda a: not c07.View.takes_value(a))
+    cv = shorts(core, lambda a: c07.View.takes_value(a) and not a["optional"] and a["names"][0] != "config")
+    cases = []
+    tasks = nv.view.tasks
+    while len(cases) < n:
+        task = rng.choice(tasks)
+        tb = shorts(task, lambda a: not c07.View.takes_value(a))
+        tv = shorts(task, lambda a: c07.View.takes_value(a))
+        kind = rng.choice(["core", "core", "task", "mixed", "mixed"])
+        k = rng.choice([3, 3, 4, 5])
+        bools = cb if kind == "core" else tb if kind == "task" else cb + tb
+        vals = cv if kind == "core" else tv if kind == "task" else cv + tv
+        bools = [b for b in bools if not (kind != "core" and b in cb and ("-" + b) in task["flags"] and b not in tb)]
+        with_value = rng.random() < 0.8 and vals
+        nb = k - 1 if with_value else k
+        if len(bools) < nb:
+            continue
+        letters = rng.sample(bools, nb)
+        vletter = None
+        if with_value:
+            vletter = rng.choice(vals)
+            pos = rng.choice([0, nb // 2 if nb > 1 else nb, nb, nb, nb])  # first, middle, last (last most often)
+            letters.insert(pos, vletter)
+        block = "-" + "".join(letters)
+        vtok = None
+        mode = "none"
+        if vletter is not None:
+            a = (task["flags"].get("-" + vletter) if kind != "core" else None) or core["flags"].get("-" + vletter)
+            vtok = "5" if a["kind"] == "int" else rng.choice(["zed", "json", "x.y"])
+            mode = rng.choice(["next", "next", "next", "glued", "none"]) if letters[-1] == vletter else rng.choice(["next", "none"])
+        placement = "front" if kind == "core" and rng.random() < 0.35 else "inside"
+        call = build_call(task, rng)
+        # do not mention a parameter twice
+        used = set(letters)
+        if any(len(i[0]) >= 2 and i[0].startswith("-") and not i[0].startswith("--") and i[0][1] in used for i in call["items"]) or \
+           any(a["key"] in call["keys"] for f, a in task["flags"].items() if len(f) == 2 and f[1] in used):
+            continue
+        second = build_call(rng.choice(tasks), rng) if rng.random() < 0.4 else None
+        if second is not None and second["task"] == call["task"]:
+            second = None
+        j = rng.randint(0, len(call["items"]))
+        rem = rng.choice(REMAINDERS) if rng.random() < 0.25 else None
+        cases.append({"kind": "block", "ns": nv.ns, "block": block, "mode": mode, "vtok": vtok, "placement": placement,
+                      "call": call, "second": second, "j": j, "rem": rem, "flavour": kind})
+    return cases
+
+
+def block_argvs(nv, case):
+    """-> (argv with the block, argv with the flag-by-flag spelling in the same place, argv with the block moved to the front | None)"""
+    task = nv.view.names[case["call"]["task"]]
+    block = case["block"] + (case["vtok"] if case["mode"] == "glued" else "")
+    extra = [case["vtok"]] if case["mode"] == "next" else []
+    ctx_task = None if case["placement"] == "front" else task
+    wise = block_flagwise(nv, ctx_task, block)
+    ck = case["call"]
+    tail = (flat([case["second"]]) if case["second"] else []) + ((["--"] + case["rem"]) if case["rem"] is not None else [])
+
+    def place(toks):
+        if case["placement"] == "front":
+            return toks + extra + flat([ck]) + tail
+        j = case["j"]
+        return [ck["task"]] + sum(ck["items"][:j], []) + toks + extra + sum(ck["items"][j:], []) + tail
+    front = None
+    # moving the block to the front is only a statement about a COMPLETE option: no value flag in the block, or the value
+    # flag is its last letter and its value is supplied (next token / glued).  A value flag followed by further letters, or
+    # left without a value, takes "whatever token comes next" - which token that is depends on the place, and inside a task a
+    # core flag token is then taken as the value while before the tasks it is a flag (reported, not demanded).
+    letters = case["block"][1:]
+    cflags = nv.view.initial["flags"]
+    vl = [ch for ch in letters if c07.View.takes_value(cflags.get("-" + ch) or {"kind": "bool", "incrementable": False})]
+    complete = not vl or (vl == [letters[-1]] and case["mode"] in ("next", "glued"))
+    if case["placement"] == "inside" and case["flavour"] == "core" and complete:
+        front = [block] + extra + flat([ck]) + tail
+    return place([block]), place(wise), front
+
+
+def oracle_block(nv, case, runs):
+    a, w, f = block_argvs(nv, case)
+    for argv in (a, w) + ((f,) if f else ()):
+        key = json.dumps(argv)
+        if key not in runs:
+            runs[key] = run_program(case["ns"], argv)
+    A, W = runs[json.dumps(a)], runs[json.dumps(w)]
+    ran = W["exc"] is None and W["stage"].get("tasks", "unset") is None and len(W["calls"]) > 0
+    if not same_effect(A, W) or A["stage"] != W["stage"] or A.get("remainder") != W.get("remainder"):
+        return ("the combined short block in %r does not mean the same as its flag-by-flag spelling %r: %r (stage %r) vs %r (stage %r)"
+                % (a, w, _brief(A), A["stage"], _brief(W), W["stage"])), ran
+    if f is not None and ran:
+        F = runs[json.dumps(f)]
+        if not same_effect(A, F):
+            return ("the block of core flags inside the task (%r) does not mean the same as before the tasks (%r): %r vs %r"
+                    % (a, f, _brief(A), _brief(F))), ran
+    return None, ran
+
+
 # ------------------------------------------------------------------ family: values that look like the sentinel
 
 DASH_NS = {"id": "X2", "tasks": [
@@ -615,6 +741,9 @@ def match_known(entry, failure):
 
 
 def replay(case):
+    if case.get("kind") == "block":
+        why, _ = oracle_block(NsView(case["ns"]), case, {})
+        return why is None, why or "ok"
     if case.get("kind") == "cross":
         why, _ = oracle_cross(NsView(case["ns"]), case, {})
         return why is None, why or "ok"
@@ -709,7 +838,7 @@ def run(ctx):
                  and not (t.startswith("-") and not t.startswith("--") and ("d" in t[1:] or "V" in t[1:]))]
         alpha += ["-T5", "-T=5", "--hide=out", "-ew", "-we", "--command-timeout=7", "-f=x.yml", "-F", "json", "-F=flat", "-D", "2", "--", "zed"]
         names = list(nv.view.names)
-        for _ in range(ctx.n(500, 6000)):
+        for _ in range(ctx.n(380, 6000)):
             if rng.random() < 0.5:
                 argv = flat([build_call(rng.choice(tasks), rng) for _ in range(rng.choice([1, 2]))])
                 for _ in range(rng.choice([0, 1, 1, 2])):
@@ -734,15 +863,27 @@ def run(ctx):
                 out.fail(case, why)
         compare_with_model(nv, runs, ctx, out, drv, baseline)
     # same-letter short blocks in different contexts / values that look like the sentinel (each run also goes to the model)
-    for ns, family in ((CROSS_NS, "cross"), (DASH_NS, "dashval")):
+    for ns, family in ((CROSS_NS, "cross"), (DASH_NS, "dashval"), (BLOCK_NS, "block"), (NAMESPACES[0], "block")):
         nv = NsView(ns)
         runs = {}
         first = ns["tasks"][1]
-        base = run_program(ns, [first["name"]])
+        base = run_program(ns, [first["name"]] + (["zed"] * sum(1 for p in first["params"] if len(p) == 1)))
         baseline = base["calls"][0]["snap"] if base["calls"] else dict((k, None) for k in SNAP_KEYS)
-        cases = cross_cases(nv, rng, ctx.n(260, 4000)) if family == "cross" else dash_cases(nv)
+        cases = (cross_cases(nv, rng, ctx.n(260, 4000)) if family == "cross" else dash_cases(nv) if family == "dashval"
+                 else block_cases(nv, rng, ctx.n(220, 3000)))
         for case in cases:
-            if family == "cross":
+            if family == "block":
+                why, ran = oracle_block(nv, case, runs)
+                letters = case["block"][1:]
+                vpos = "no-value-flag" if case["vtok"] is None else "value-flag-%s" % (
+                    "first" if case["vtok"] is not None and block_flagwise(nv, None if case["placement"] == "front" else
+                                                                           nv.view.names[case["call"]["task"]], case["block"])[0:1] == [case["block"][:2]]
+                    and len(block_flagwise(nv, None if case["placement"] == "front" else nv.view.names[case["call"]["task"]], case["block"])) == 2
+                    else "later")
+                out.hist["block:%s:len%d:%s:%s:%s%s" % (case["flavour"], len(letters), vpos, case["mode"], case["placement"],
+                                                        "" if ran else ":refused-both") if why is None else "oracle-failure"] += 1
+                out.case(case, ran)
+            elif family == "cross":
                 why, tag = oracle_cross(nv, case, runs)
                 out.hist[tag if why is None else "oracle-failure"] += 1
                 out.case(case, tag == "cross")
